@@ -410,14 +410,7 @@ def doc_main(pid, *, assumptions, rule, mc, populations, nontrivial=None, sympto
         run.add_tlc(tlc.run_tlc(module, cfg, workers=16, timeout=3000, label=label))
     sess = []
     if a.replay_case:
-        case = a.replay_case['case']
-        pop = next((p for p in populations if p[0] in (case.get('tags') or [])), populations[0])
-        kw0 = {k: v for k, v in pop[4].items() if k != '_fixed'}
-        s = pop[1](case['seed'], **kw0)
-        if pop[4].get('_fixed'):
-            s['case_id'] = f"{pop[0]}:{case['seed']}"
-        s['tags'] = list(s.get('tags', [])) + [pop[0]]
-        sess = [s]
+        sess = docs.replay_sessions(a.replay_case)
     else:
         for k, (label, fn, nq, nt, kw) in enumerate(populations):
             n = nq if quick else nt
